@@ -91,102 +91,131 @@ theorem steps_cases : ∀ (steps : List (Event × Option Err)),
 
 /-! ## run = walk over the expected steps -/
 
-/-- the calls of a step list with the failure attached to each, `k` calls already made -/
-def pairsOf (fail : Nat → Event → Option Err) : Nat → List Step → List (Event × Option Err)
-  | _, [] => []
-  | k, s :: ss =>
+/-- the calls of a step list with the failure attached to each -/
+def pairsOf (plan : FaultPlan) : List Step → List (Event × Option Err)
+  | [] => []
+  | s :: ss =>
     match s.ev with
-    | none => pairsOf fail k ss
-    | some e => (e, fail k e) :: pairsOf fail (k + 1) ss
+    | none => pairsOf plan ss
+    | some e => (e, stepFail plan e s.natural) :: pairsOf plan ss
 
-theorem stepLoop_walk (fail : Nat → Event → Option Err) :
-    ∀ (ss : List Step) (k : Nat) (tr : Trace) (c : Ctx) (rest : List (Event × Option Err)),
-    walk (pairsOf fail k ss ++ rest) tr =
-      match stepLoop fail k ss tr c with
+theorem exec_walk (plan : FaultPlan) :
+    ∀ (ss : List Step) (tr : Trace) (c : Ctx) (rest : List (Event × Option Err)),
+    walk (pairsOf plan ss ++ rest) tr =
+      match exec plan ss tr c with
       | (tr', _, some e) => (tr', .err (toProgramError e))
       | (tr', _, none) => walk rest tr'
-  | [], k, tr, c, rest => by simp [pairsOf, stepLoop]
-  | s :: ss, k, tr, c, rest => by
+  | [], tr, c, rest => by simp [pairsOf, exec]
+  | s :: ss, tr, c, rest => by
     cases hs : s.ev with
     | none =>
-      simp only [pairsOf, stepLoop, hs]
-      exact stepLoop_walk fail ss k tr _ rest
+      simp only [pairsOf, exec, hs]
+      exact exec_walk plan ss tr _ rest
     | some e =>
-      simp only [pairsOf, stepLoop, hs, List.cons_append]
-      cases hf : fail k e with
+      simp only [pairsOf, exec, hs, List.cons_append]
+      cases hf : stepFail plan e s.natural with
       | none =>
         simp only [walk]
-        exact stepLoop_walk fail ss (k + 1) _ _ rest
+        exact exec_walk plan ss _ _ rest
       | some er => simp [walk]
 
 theorem applyEffs_append (c : Ctx) (a b : List Eff) :
     applyEffs c (a ++ b) = applyEffs (applyEffs c a) b := by
   simp [applyEffs, List.foldl_append]
 
-/-- A loop that ran to its end has applied every cache update, in order. -/
-theorem stepLoop_ctx (fail : Nat → Event → Option Err) :
-    ∀ (ss : List Step) (k : Nat) (tr : Trace) (c : Ctx),
-    (stepLoop fail k ss tr c).2.2 = none →
-    (stepLoop fail k ss tr c).2.1 = applyEffs c (ss.flatMap (·.effs))
-  | [], k, tr, c, _ => by simp [stepLoop, applyEffs]
-  | s :: ss, k, tr, c, h => by
+/-- A sequence that ran to its end has applied every cache update, in order. -/
+theorem exec_ctx (plan : FaultPlan) :
+    ∀ (ss : List Step) (tr : Trace) (c : Ctx),
+    (exec plan ss tr c).2.2 = none →
+    (exec plan ss tr c).2.1 = applyEffs c (ss.flatMap (·.effs))
+  | [], tr, c, _ => by simp [exec, applyEffs]
+  | s :: ss, tr, c, h => by
     cases hs : s.ev with
     | none =>
-      simp only [stepLoop, hs] at h ⊢
-      rw [stepLoop_ctx fail ss k tr _ h, List.flatMap_cons, applyEffs_append]
+      simp only [exec, hs] at h ⊢
+      rw [exec_ctx plan ss tr _ h, List.flatMap_cons, applyEffs_append]
     | some e =>
-      simp only [stepLoop, hs] at h ⊢
-      cases hf : fail k e with
+      simp only [exec, hs] at h ⊢
+      cases hf : stepFail plan e s.natural with
       | some er => simp [hf] at h
       | none =>
         simp only [hf] at h ⊢
-        rw [stepLoop_ctx fail ss (k + 1) _ _ h, List.flatMap_cons, applyEffs_append]
+        rw [exec_ctx plan ss _ _ h, List.flatMap_cons, applyEffs_append]
 
-theorem pairsOf_events (fail : Nat → Event → Option Err) :
-    ∀ (ss : List Step) (k : Nat), (pairsOf fail k ss).map (·.1) = events ss
-  | [], _ => by simp [pairsOf, events]
-  | s :: ss, k => by
+/-- Running a concatenation = running the first part and, if it did not fail, the second. -/
+theorem exec_append (plan : FaultPlan) :
+    ∀ (a b : List Step) (tr : Trace) (c : Ctx),
+    exec plan (a ++ b) tr c =
+      match exec plan a tr c with
+      | (tr', c', some e) => (tr', c', some e)
+      | (tr', c', none) => exec plan b tr' c'
+  | [], b, tr, c => by simp [exec]
+  | s :: a, b, tr, c => by
     cases hs : s.ev with
     | none =>
-      have ih := pairsOf_events fail ss k
-      simp only [events] at ih
-      simp [pairsOf, events, hs, ih]
+      simp only [List.cons_append, exec, hs]
+      exact exec_append plan a b tr _
     | some e =>
-      have ih := pairsOf_events fail ss (k + 1)
-      simp only [events] at ih
-      simp [pairsOf, events, hs, ih]
+      simp only [List.cons_append, exec, hs]
+      cases hf : stepFail plan e s.natural with
+      | some er => simp
+      | none => exact exec_append plan a b _ _
 
-theorem pairsOf_failures (fail : Nat → Event → Option Err) :
-    ∀ (ss : List Step) (k : Nat), (pairsOf fail k ss).map (·.2) = failsOf fail k ss
-  | [], _ => by simp [pairsOf, failsOf]
-  | s :: ss, k => by
+theorem pairsOf_events (plan : FaultPlan) :
+    ∀ (ss : List Step), (pairsOf plan ss).map (·.1) = events ss
+  | [] => by simp [pairsOf, events]
+  | s :: ss => by
+    have ih := pairsOf_events plan ss
+    simp only [events] at ih
     cases hs : s.ev with
-    | none => simp [pairsOf, failsOf, hs, pairsOf_failures fail ss k]
-    | some e => simp [pairsOf, failsOf, hs, pairsOf_failures fail ss (k + 1)]
+    | none => simp [pairsOf, events, hs, ih]
+    | some e => simp [pairsOf, events, hs, ih]
 
-theorem decodeSteps_effs (t : ASet) : t.decodeSteps.flatMap (·.effs) = [] := by
-  simp [ASet.decodeSteps, evStep, List.flatMap_eq_nil_iff]
+theorem pairsOf_failures (plan : FaultPlan) :
+    ∀ (ss : List Step), (pairsOf plan ss).map (·.2) = failsOf plan ss
+  | [] => by simp [pairsOf, failsOf]
+  | s :: ss => by
+    cases hs : s.ev with
+    | none => simp [pairsOf, failsOf, hs, pairsOf_failures plan ss]
+    | some e => simp [pairsOf, failsOf, hs, pairsOf_failures plan ss]
+
+mutual
+theorem decodeSteps_effs : ∀ (r : RSet), r.decodeSteps.flatMap (·.effs) = []
+  | .leaf _ _ _ => by simp [RSet.decodeSteps]
+  | .node _ _ _ _ fs => by simp only [RSet.decodeSteps]; exact decodeStepsF_effs fs
+  | .seq rs => by simp only [RSet.decodeSteps]; exact decodeStepsL_effs rs
+theorem decodeStepsF_effs : ∀ (fs : List (FieldHdr × RSet)), (decodeStepsF fs).flatMap (·.effs) = []
+  | [] => by simp [decodeStepsF]
+  | (_, r) :: rest => by
+    simp only [decodeStepsF, List.flatMap_append, decodeSteps_effs r, decodeStepsF_effs rest,
+      List.append_nil]
+theorem decodeStepsL_effs : ∀ (rs : List RSet), (decodeStepsL rs).flatMap (·.effs) = []
+  | [] => by simp [decodeStepsL]
+  | r :: rest => by
+    simp only [decodeStepsL, List.flatMap_append, decodeSteps_effs r, decodeStepsL_effs rest,
+      List.append_nil]
+end
 
 /-- All steps of an instruction with the failure attached to each. -/
-def steps (ix : Ix) (plan : FaultPlan) (data : List Nat) (naccts : Nat) : List (Event × Option Err) :=
-  (⟨.args, ix.id, [], none, none⟩, argsFail ix plan data)
-  :: (pairsOf (decodeFail plan naccts) 0 ix.set.decodeSteps
-  ++ (pairsOf (plainFail plan) 0 ix.set.validateSteps
-  ++ ((processEvent ix data, planned plan .process ix.id)
-  :: (pairsOf (plainFail plan) 0 ix.set.cleanupSteps ++ []))))
+def steps (ix : Ix) (plan : FaultPlan) (data : List Nat) (accts : List Bool) : List (Event × Option Err) :=
+  (argsEvent ix, argsFail ix plan data)
+  :: (pairsOf plan (ix.shape accts).decodeSteps
+  ++ (pairsOf plan (ix.shape accts).validateSteps
+  ++ ((processEvent ix data (ix.shape accts), planned plan (processEvent ix data (ix.shape accts)))
+  :: (pairsOf plan (ix.shape accts).cleanupSteps ++ []))))
 
-theorem run_eq_walk (ix : Ix) (plan : FaultPlan) (data : List Nat) (naccts : Nat) :
-    run ix plan data naccts = walk (steps ix plan data naccts) [] := by
+theorem run_eq_walk (ix : Ix) (plan : FaultPlan) (data : List Nat) (accts : List Bool) :
+    run ix plan data accts = walk (steps ix plan data accts) [] := by
   unfold run steps
+  simp only [Ix.shape]
+  generalize (ix.set.resolve ⟨accts, 0⟩).1 = r
   cases ha : argsFail ix plan data with
   | some e => simp [walk]
   | none =>
     simp only [walk, List.nil_append]
-    rw [stepLoop_walk _ _ _ _ {}]
-    have hdc := stepLoop_ctx (decodeFail plan naccts) ix.set.decodeSteps 0
-      [⟨.args, ix.id, [], none, none⟩] {}
-    cases hd : stepLoop (decodeFail plan naccts) 0 ix.set.decodeSteps
-        [⟨.args, ix.id, [], none, none⟩] {} with
+    rw [exec_walk _ _ _ {}]
+    have hdc := exec_ctx plan r.decodeSteps [argsEvent ix] {}
+    cases hd : exec plan r.decodeSteps [argsEvent ix] {} with
     | mk tr1 r1 =>
       obtain ⟨c1, o1⟩ := r1
       cases o1 with
@@ -198,46 +227,42 @@ theorem run_eq_walk (ix : Ix) (plan : FaultPlan) (data : List Nat) (naccts : Nat
           simpa [decodeSteps_effs, applyEffs] using this
         subst hc1
         simp only
-        rw [stepLoop_walk _ _ _ _ {}]
-        have hvc := stepLoop_ctx (plainFail plan) ix.set.validateSteps 0 tr1 {}
-        cases hv : stepLoop (plainFail plan) 0 ix.set.validateSteps tr1 {} with
+        rw [exec_walk _ _ _ {}]
+        have hvc := exec_ctx plan r.validateSteps tr1 {}
+        cases hv : exec plan r.validateSteps tr1 {} with
         | mk tr2 r2 =>
           obtain ⟨c2, o2⟩ := r2
           cases o2 with
           | some e => simp
           | none =>
             rw [hv] at hvc
-            have hc2 : c2 = ix.set.cache := by
+            have hc2 : c2 = r.cache := by
               have := hvc rfl
-              simpa [ASet.cache] using this
+              simpa [RSet.cache] using this
             subst hc2
             simp only
-            cases hp : planned plan .process ix.id with
-            | some e => simp [walk, processEvent]
+            have hpe : (⟨.process, ix.id, 0, data.take ix.alen, r.cache.funder, r.cache.recipient⟩ : Event)
+                = processEvent ix data r := rfl
+            rw [hpe]
+            cases hp : planned plan (processEvent ix data r) with
+            | some e => simp [walk]
             | none =>
               simp only [walk]
-              rw [stepLoop_walk _ _ _ _ ix.set.cache]
-              simp only [processEvent]
-              cases hc : stepLoop (plainFail plan) 0 ix.set.cleanupSteps
-                  (tr2 ++ [⟨.process, ix.id, data.take ix.alen, ix.set.cache.funder,
-                    ix.set.cache.recipient⟩]) ix.set.cache with
+              rw [exec_walk _ _ _ r.cache]
+              cases hc : exec plan r.cleanupSteps (tr2 ++ [processEvent ix data r]) r.cache with
               | mk tr3 r3 =>
                 obtain ⟨c3, o3⟩ := r3
                 cases o3 with
                 | some e => simp
                 | none => simp [walk]
 
-theorem steps_events (ix : Ix) (plan : FaultPlan) (data : List Nat) (naccts : Nat) :
-    (steps ix plan data naccts).map (·.1) = expected ix data := by
+theorem steps_events (ix : Ix) (plan : FaultPlan) (data : List Nat) (accts : List Bool) :
+    (steps ix plan data accts).map (·.1) = expected ix data accts := by
   simp [steps, expected, pairsOf_events]
 
-theorem steps_failures (ix : Ix) (plan : FaultPlan) (data : List Nat) (naccts : Nat) :
-    (steps ix plan data naccts).map (·.2) = failures ix plan data naccts := by
+theorem steps_failures (ix : Ix) (plan : FaultPlan) (data : List Nat) (accts : List Bool) :
+    (steps ix plan data accts).map (·.2) = failures ix plan data accts := by
   simp [steps, failures, pairsOf_failures]
-
-theorem steps_eq_zip (ix : Ix) (plan : FaultPlan) (data : List Nat) (naccts : Nat) :
-    steps ix plan data naccts = (expected ix data).zip (failures ix plan data naccts) :=
-  List.zip_of_prod (steps_events ix plan data naccts) (steps_failures ix plan data naccts)
 
 end Account.C11
 
